@@ -239,6 +239,11 @@ func (w *scriptedWatcher) Watch(ctx context.Context, _ object.ObjMetadataSet, _ 
 				select {
 				case out <- se.e:
 					close(se.ack)
+					if se.e.Type == pollevent.ErrorEvent {
+						// like DefaultStatusWatcher after a fatal error: the watcher stops and closes its channel by itself,
+						// while the runner's current task is still in flight
+						return
+					}
 				case <-ctx.Done():
 					return
 				}
